@@ -452,8 +452,12 @@ def expand_ites(t: Term, limit: int = 64) -> List[Tuple[Tuple[Guard, ...], Term]
     for x in walk(t):
         if isinstance(x, Ite) and x.test not in tests:
             tests.append(x.test)
-    if not tests or 2 ** len(tests) > limit:
+    if not tests:
         return alternatives(t)
+    if 2 ** len(tests) > limit:
+        # many tests are usually one if / elif chain: follow the structure, which yields one alternative per arm
+        res = _expand_structural(t, 4 * limit)
+        return res if res is not None else alternatives(t)
     import itertools as _it
     out = []
     for choice in _it.product((True, False), repeat=len(tests)):
@@ -486,6 +490,61 @@ def expand_ites(t: Term, limit: int = 64) -> List[Tuple[Tuple[Guard, ...], Term]
         if (g, l) not in uniq:
             uniq.append((g, l))
     return uniq
+
+
+def _expand_structural(t: Term, limit: int) -> Optional[List[Tuple[Tuple[Guard, ...], Term]]]:
+    """expand_ites by recursion over the term: an Ite contributes its test with one polarity per arm, siblings are
+    combined when they agree on the tests they share; None when there are more than `limit` alternatives"""
+    def merge(g1, g2):
+        m = dict(g1)
+        for tt, pol in g2:
+            if m.get(tt, pol) != pol:
+                return None
+            m[tt] = pol
+        return tuple(m.items())
+
+    def combine(parts: List[List[Tuple[Tuple[Guard, ...], Term]]]):
+        acc: List[Tuple[Tuple[Guard, ...], Tuple[Term, ...]]] = [((), ())]
+        for alts in parts:
+            nxt = []
+            for g, items in acc:
+                for g2, leaf in alts:
+                    mg = merge(g, g2)
+                    if mg is not None:
+                        nxt.append((mg, items + (leaf,)))
+            if len(nxt) > limit:
+                raise OverflowError
+            acc = nxt
+        return acc
+
+    def ex(u: Term) -> List[Tuple[Tuple[Guard, ...], Term]]:
+        if isinstance(u, Ite):
+            out = []
+            for pol, arm in ((True, u.a), (False, u.b)):
+                for g, leaf in ex(arm):
+                    mg = merge(((u.test, pol),), g)
+                    if mg is not None:
+                        out.append((mg, leaf))
+            if len(out) > limit:
+                raise OverflowError
+            return out
+        if isinstance(u, New):
+            return [(g, New(u.cls, tuple((k, v) for (k, _), v in zip(u.fields, items)))) for g, items in combine([ex(v) for _, v in u.fields])]
+        if isinstance(u, TupleT):
+            return [(g, TupleT(items, u.kind)) for g, items in combine([ex(a) for a in u.items])]
+        if isinstance(u, Call):
+            n = len(u.args)
+            return [(g, Call(items[0], items[1:1 + n], tuple((k, v) for (k, _), v in zip(u.kwargs, items[1 + n:]))))
+                    for g, items in combine([ex(u.func)] + [ex(a) for a in u.args] + [ex(v) for _, v in u.kwargs])]
+        if isinstance(u, Attr):
+            return [(g, Attr(b, u.name)) for g, b in ex(u.base)]
+        if isinstance(u, Op):
+            return [(g, Op(u.op, items)) for g, items in combine([ex(a) for a in u.args])]
+        return [((), u)]
+    try:
+        return ex(t)
+    except OverflowError:
+        return None
 
 
 def expand_outcomes(outs: List['Outcome'], limit: int = 64) -> List['Outcome']:
@@ -806,10 +865,98 @@ class Evaluator:
             env['__class__'] = ClassRef(fi.cls.name)
         st = _State(env)
         outs: List[Outcome] = []
-        finals = self.block(fi.node.body, [st], fi.module, fi, depth, outs)
+        finals = self.block(self._tail_form(fi), [st], fi.module, fi, depth, outs)
         for s in finals:
             outs.append(Outcome('fall', NONE, s.guards, s.effects, s.asserts, fi.node.end_lineno or 0, dict(s.env), s.trace))
         return outs
+
+    _TAIL_FORMS: Dict[int, list] = {}
+
+    def _tail_form(self, fi: FunctionInfo) -> list:
+        """A module-level function of the shape
+
+            P                      # assignments computed from the parameters
+            while c:
+                B
+                param = e          # every fall-through of the body re-binds parameters ...
+                P                  # ... and repeats the prologue
+            R
+
+        is the tail-recursive function `P; if c: B; return f(e); R`: the loop state is a function of the parameters
+        alone.  The units of the rewriter are analysed one call at a time with the recursive call as induction
+        hypothesis, so a loop that peels its argument is read in that form.  Any other body is returned as it is."""
+        cached = getattr(fi, '_tail_form_body', None)
+        if cached is not None:
+            return cached
+        body = fi.node.body
+        res = body
+        try:
+            res = self._tail_form_of(fi) or body
+        except Exception:  # pragma: no cover - a shape this does not understand stays a loop
+            res = body
+        try:
+            fi._tail_form_body = res
+        except Exception:  # pragma: no cover
+            pass
+        return res
+
+    @staticmethod
+    def _tail_form_of(fi: FunctionInfo) -> Optional[list]:
+        body = fi.node.body
+        a = fi.node.args
+        if fi.cls is not None or a.vararg or a.kwarg or a.kwonlyargs:
+            return None
+        widx = [i for i, s in enumerate(body) if isinstance(s, ast.While)]
+        if len(widx) != 1:
+            return None
+        wi = widx[0]
+        w = body[wi]
+        if w.orelse or any(isinstance(n, (ast.Break, ast.Continue, ast.While, ast.For, ast.Yield, ast.YieldFrom)) for b in w.body for n in ast.walk(b)):
+            return None
+        params = [p.arg for p in a.posonlyargs + a.args]
+
+        def simple(st) -> Optional[Tuple[str, str]]:
+            if isinstance(st, ast.Assign) and len(st.targets) == 1 and isinstance(st.targets[0], ast.Name):
+                return st.targets[0].id, ast.dump(st.value)
+            if isinstance(st, ast.AnnAssign) and isinstance(st.target, ast.Name) and st.value is not None:
+                return st.target.id, ast.dump(st.value)
+            return None
+        start = 1 if body and isinstance(body[0], ast.Expr) and isinstance(body[0].value, ast.Constant) and isinstance(body[0].value.value, str) else 0
+        prologue = [simple(st) for st in body[start:wi]]
+        if not prologue or any(x is None for x in prologue) or any(t in params for t, _ in prologue):
+            return None
+        k = len(prologue)
+        if len(w.body) < k + 1 or [simple(st) for st in w.body[-k:]] != prologue:
+            return None
+        # the parameter re-bindings right before the repeated prologue
+        j = len(w.body) - k
+        new: Dict[str, ast.expr] = {}
+        while j > 0:
+            sm = simple(w.body[j - 1])
+            if sm is None or sm[0] not in params or sm[0] in new:
+                break
+            st = w.body[j - 1]
+            val = st.value
+            if any(isinstance(n, ast.Name) and n.id in new for n in ast.walk(val)):
+                return None
+            new[sm[0]] = val
+            j -= 1
+        if not new:
+            return None
+        head = w.body[:j]
+        # nothing else the body binds may be needed after the loop, and the body binds no parameter elsewhere
+        ptargets = {t for t, _ in prologue}
+        bound = {n.id for b in head for n in ast.walk(b) if isinstance(n, ast.Name) and isinstance(n.ctx, ast.Store)}
+        if bound & (set(params) | ptargets):
+            return None
+        after_loads = {n.id for b in body[wi + 1:] for n in ast.walk(b) if isinstance(n, ast.Name) and isinstance(n.ctx, ast.Load)}
+        if (bound - ptargets) & after_loads:
+            return None
+        call = ast.Call(func=ast.Name(id=fi.name, ctx=ast.Load()), args=[new.get(p, ast.Name(id=p, ctx=ast.Load())) for p in params], keywords=[])
+        ret = ast.copy_location(ast.Return(value=call), w.body[-1])
+        branch = ast.copy_location(ast.If(test=w.test, body=list(head) + [ret], orelse=[]), w)
+        ast.fix_missing_locations(branch)
+        return list(body[:wi]) + [branch] + list(body[wi + 1:])
 
     def bind_call(self, fi: FunctionInfo, recv: Optional[Term], args: Tuple[Term, ...], kwargs: Tuple[Tuple[str, Term], ...], depth: int) -> Optional[Dict[str, Term]]:
         a = fi.node.args
